@@ -6,7 +6,7 @@ from __future__ import annotations
 import ast
 from typing import List
 
-from sa.astutil import call_name, parent_map, u
+from sa.astutil import call_name, oriented, parent_map, u
 from sa.defuse import ReachingDefs
 from sa.model import FuncInfo, own_nodes
 
@@ -17,10 +17,10 @@ def raw_negative_dim_uses(f: FuncInfo) -> List[dict]:
     for n in own_nodes(f.node):
         if isinstance(n, ast.If) and any(isinstance(x, ast.Raise) for x in n.body):
             for c in ast.walk(n.test):
-                if isinstance(c, ast.Compare) and len(c.ops) == 1 and isinstance(c.left, ast.Name) and c.left.id in params \
-                        and isinstance(c.ops[0], ast.Lt) and isinstance(c.comparators[0], ast.UnaryOp) \
-                        and isinstance(c.comparators[0].op, ast.USub) and not isinstance(c.comparators[0].operand, ast.Constant):
-                    admitted[c.left.id] = n
+                o = oriented(c, lambda e: isinstance(e, ast.Name) and e.id in params) if isinstance(c, ast.Compare) else None
+                if o and o[0] == "lt" and isinstance(o[2], ast.UnaryOp) and isinstance(o[2].op, ast.USub) \
+                        and not isinstance(o[2].operand, ast.Constant):
+                    admitted[o[1].id] = n
     if not admitted:
         return []
     rd = ReachingDefs(f.node)
